@@ -50,14 +50,14 @@ CURATED = {
     "kernel": { "KernelModel.make_kernel": ("C11",), "Kernel.release": ("C11",),"Kernel.Iq": ("C01", "C05", "C06", "C07", "C08", "C09", "C11", "C16",), "Kernel.Fq": ("C01", "C05", "C06", "C07", "C08", "C09", "C11", "C14", "C16",)},
     "product": { "_tag_parameter": ("C07",), "ProductKernel.release": ("C11",), "ProductModel.release": ("C11",),
         MODULE_BODY: ("C07",),
-        "make_extra_pars": ("C07",), "make_product_info": ("C07",), "_intermediates": ("C07",), "ProductModel.__init__": ("C07",),
+        "make_extra_pars": ("C07",), "make_product_info": ("C07", "C11",), "_intermediates": ("C07",), "ProductModel.__init__": ("C07",),
         "ProductModel.make_kernel": ("C07",), "ProductKernel.__init__": ("C06", "C07", "C08"), "ProductKernel.Iq": ("C07", "C08", "C11",),
     },
     "mixture": { "_MixtureParts.__iter__": ("C08",), "MixtureKernel.release": ("C11",), "MixtureModel.release": ("C11",),
         MODULE_BODY: ("C08",),
         "make_mixture_info": ("C08",), "MixtureModel.__init__": ("C08",), "MixtureModel.make_kernel": ("C08",), "_intermediates": ("C08",),
-        "MixtureKernel.__init__": ("C08",), "MixtureKernel.Iq": ("C06", "C08", "C11", "C19",), "_MixtureParts.__init__": ("C08",), "_MixtureParts.__next__": ("C08",),
-        "_MixtureParts._part_details": ("C08",), "_MixtureParts._part_values": ("C08", "C19",),
+        "MixtureKernel.__init__": ("C08",), "MixtureKernel.Iq": ("C06", "C08", "C11", "C19",), "_MixtureParts.__init__": ("C06", "C08",), "_MixtureParts.__next__": ("C06", "C08",),
+        "_MixtureParts._part_details": ("C06", "C08",), "_MixtureParts._part_values": ("C06", "C08", "C19",),
     },
     "direct_model": { "DataMixin._set_data": ("C10",), "DirectModel.simulate_data": ("C10",),
         MODULE_BODY: ("C10",),
@@ -88,7 +88,7 @@ CURATED = {
         MODULE_BODY: ("C10", "C11"),
         "SasviewModel.__init__": ("C10",), "_generate_model_attributes": ("C10",), "make_model_from_info": ("C10",),
         "load_custom_model": ("C17",), "_make_standard_model": ("C10",),
-        "SasviewModel.setParam": ("C10",), "SasviewModel.getParam": ("C10",), "SasviewModel.clone": ("C11",), "SasviewModel.run": ("C10",),
+        "SasviewModel.setParam": ("C10",), "SasviewModel.getParam": ("C10",), "SasviewModel.clone": ("C02", "C10", "C11",), "SasviewModel.run": ("C10",),
         "SasviewModel.runXY": ("C10",), "SasviewModel.evalDistribution": ("C10",), "SasviewModel.calculate_Iq": ("C10", "C11",),
         "SasviewModel._calculate_Iq": ("C10", "C11"), "SasviewModel.set_dispersion": ("C10",), "SasviewModel._get_weights": ("C02", "C05", "C10",),
     },
@@ -99,7 +99,7 @@ CURATED = {
     "core": { "merge_deps": ("C16",), "precompile_dlls": ("C17",),"build_model": ("C15", "C17"), "parse_dtype": ("C15", "C17"), "reparameterize": ("C16",), "load_model": ("C17",), "load_model_info": ("C17",)},
     "generate": { "_kernels": ("C01", "C09", "C17",), "_search": ("C17",), "load_kernel_module": ("C17",), "read_text": ("C17",), "get_data_path": ("C17",), "_clean_source_filename": ("C17",),
         MODULE_BODY: ("C15", "C17"),
-        "tag_source": ("C17", "C18"), "convert_type": ("C15",), "_convert_type": ("C15",), "_fix_tgmath_int": ("C15",), "_tag_float": ("C15",),
+        "tag_source": ("C17", "C18"), "set_integration_size": ("C17", "C18"), "convert_type": ("C15",), "_convert_type": ("C15",), "_fix_tgmath_int": ("C15",), "_tag_float": ("C15",),
         "_split_translation": ("C16",), "_build_translation": ("C16",), "_build_translation_vars": ("C16",), "_build_validity_check": ("C16",),
         "find_xy_mode": ("C09",), "contains_Fq": ("C09", "C14"), "contains_shell_volume": ("C09",), "_gen_fn": ("C09",), "_call_pars": ("C09", "C16"),
         "make_source": ("C09", "C16", "C17"), "load_template": ("C17",), "model_sources": ("C17",), "_add_source": ("C17",), "kernel_name": ("C17",),
@@ -107,7 +107,7 @@ CURATED = {
     "modelinfo": { "Parameter.__init__": ("C09", "C20",), "Parameter.as_definition": ("C09", "C16",), "Parameter.as_function_argument": ("C09", "C16",), "ParameterTable._get_ref": ("C01", "C09",), "ParameterTable.user_parameters": ("C10",), "ParameterTable.set_zero_background": ("C07", "C08",), "expand_pars": ("C09", "C10",), "prefix_parameter": ("C08",), "suffix_parameter": ("C07", "C08",), "ModelInfo.get_hidden_parameters": ("C10",), "ParameterTable.__getitem__": ("C09",), "ParameterTable.__contains__": ("C09",),
         "make_parameter_table": ("C09", "C16", "C20",), "parse_parameter": ("C09", "C16", "C20",), "ParameterTable.__init__": ("C01", "C02", "C05", "C06", "C07", "C08", "C09", "C10", "C16", "C20",), "ParameterTable.check_angles": ("C05", "C09",),
         "ParameterTable.check_duplicates": ("C09",), "ParameterTable._set_vector_lengths": ("C01", "C07", "C08", "C09", "C20",), "ParameterTable._get_call_parameters": ("C01", "C06", "C07", "C08", "C09", "C16", "C20",),
-        "ParameterTable._get_defaults": ("C06", "C07", "C08", "C09", "C10",), "make_model_info": ("C09", "C16", "C20",), "derive_table": ("C16",), "_insert_after": ("C16",), "_simple_insert": ("C16",),
+        "ParameterTable._get_defaults": ("C06", "C07", "C08", "C09", "C10",), "make_model_info": ("C09", "C15", "C16", "C20",), "derive_table": ("C16",), "_insert_after": ("C16",), "_simple_insert": ("C16",),
     },
     "convert": {
         MODULE_BODY: ("C20",),
